@@ -135,6 +135,7 @@ func NewEnvManager(tm *task.Manager, incomingEventCh chan event.Event) *Manager 
 
 					if ok {
 						thisEnvCh <- typedEvent
+						verifhook.Point("envman.released.afterSend")
 
 						instance.mu.Lock()
 						close(thisEnvCh)
